@@ -438,6 +438,27 @@ Fixpoint props_end (n : nat) (s : list Z) : option (list Z) :=
             | Err _ => None
             end
   end.
+(* the status of the model's readers along the properties *)
+Fixpoint props_st (n : nat) (s : list Z) : Z :=
+  match n with
+  | O => SBDF_OK
+  | S n' => match read_string false None s with
+            | Err e => e
+            | Ok (_, s1) => match Va.va_read false None s1 with Err e => e | Ok (_, s2) => props_st n' s2 end
+            end
+  end.
+Definition cs_st (sx : list Z) : Z :=
+  match sec_expect SBDF_COLUMNSLICE_SECTIONID sx with
+  | Err e => e
+  | Ok (_, s1) => match Va.va_read false None s1 with
+                  | Err e => e
+                  | Ok (_, s2) => match read_int32 false s2 with
+                                  | Err e => e
+                                  | Ok (v, s3) => if v <? 0 then SBDF_ERROR_INVALID_SIZE else if v =? 0 then SBDF_OK
+                                                  else if 134217727 <? v then SBDF_ERROR_OUT_OF_MEMORY else props_st (Z.to_nat v) s3
+                                  end
+                  end
+  end.
 (* everything behind the caller's heap is released by one sbdf_cs_destroy on the slice (which is the first new block) *)
 Definition releasable (h h' : heap) (m' : list Z) : Prop :=
   exists hnew, h' = h ++ hnew /\ (1 <= List.length hnew)%nat /\ cs_sem m' (List.length h) hnew.
@@ -454,7 +475,8 @@ Definition props_spec (so : val) (h : heap) : Prop :=
       (exists sB, bsE prog_env cs_props_seq (s6 so h v k2 s3 blk newb m2) (OBreak sB) /\ bsE prog_env cs_tail sB (OReturn (VInt st) (crf fv ov l' k' s' h' m'))) /\
       prefix_of m2 m' /\
       ((st = SBDF_OK /\ c_so l' = VCell (List.length h) 0 /\ releasable h h' m' /\ props_end (Z.to_nat v) s3 = Some s' /\ Forall byte s')
-       \/ (st < 0 /\ c_so l' = so /\ exists j, h' = h ++ nones j)).
+       \/ (st < 0 /\ c_so l' = so /\ exists j, h' = h ++ nones j)) /\
+      (k2 < 0 -> st = (if 134217727 <? v then SBDF_ERROR_OUT_OF_MEMORY else props_st (Z.to_nat v) s3)).
 
 Lemma cs_read_gen so k sx h m : Forall byte sx ->
   (forall s1, sec_expect SBDF_COLUMNSLICE_SECTIONID sx = Ok (tt, s1) -> forall t s2, s1 <> 3 :: t :: s2) ->
@@ -466,15 +488,16 @@ Lemma cs_read_gen so k sx h m : Forall byte sx ->
     ((st = SBDF_OK /\ c_so l' = VCell L 0 /\ releasable h h' m' /\
         exists s1 va s2 v s3, sec_expect SBDF_COLUMNSLICE_SECTIONID sx = Ok (tt, s1) /\ Va.va_read false None s1 = Ok (va, s2) /\ read_int32 false s2 = Ok (v, s3) /\ 0 <= v /\
                               props_end (Z.to_nat v) s3 = Some s' /\ Forall byte s')
-     \/ (st < 0 /\ c_so l' = so /\ exists j, h' = h ++ nones j)).
+     \/ (st < 0 /\ c_so l' = so /\ exists j, h' = h ++ nones j)) /\
+    (k < 0 -> st = cs_st sx).
 Proof.
-  intros Hs NB NBP PROPS L.
+  intros Hs NB NBP PROPS L. unfold cs_st.
   pose proof (sec_expect_bs2 fv SBDF_COLUMNSLICE_SECTIONID VUndef VUndef k sx h m I Hs ltac:(unfold SBDF_COLUMNSLICE_SECTIONID, int_min, int_max; lia)) as SE.
   destruct (sec_expect SBDF_COLUMNSLICE_SECTIONID sx) as [[[] s1]|st0] eqn:ESE.
   2: { (* no column slice section here *)
     destruct SE as (e' & v' & s' & SE).
     assert (Hneg : st0 < 0) by (apply (neg_sec_expect SBDF_COLUMNSLICE_SECTIONID sx st0 ESE)).
-    exists st0. eexists (Build_crl _ _ _ _ _ _ _ _ _ _). do 4 eexists. split; [|split; [exists []; now rewrite app_nil_r|right; split; [exact Hneg|split; [reflexivity|exists 0%nat; cbn; now rewrite app_nil_r]]]].
+    exists st0. eexists (Build_crl _ _ _ _ _ _ _ _ _ _). do 4 eexists. split; [|split; [exists []; now rewrite app_nil_r|split; [right; split; [exact Hneg|split; [reflexivity|exists 0%nat; cbn; now rewrite app_nil_r]]|intros _; reflexivity]]].
     apply cs_read_ret. unfold cs_body. cbn [fbody prog_sbdf_cs_read]. uncr.
     eapply bsE_seq; [eapply bsE_decl0; evk; reflexivity|].
     eapply bsE_seq; [eapply bsE_seq; [eapply bsE_decl0; evk; reflexivity|eapply bsE_seq; [eapply bsE_decl0; evk; reflexivity|eapply bsE_decl0; evk; reflexivity]]|].
@@ -497,7 +520,7 @@ Proof.
   destruct (k =? 0) eqn:Ek0.
   { (* the slice cannot be allocated *)
     assert (k = 0) by lia. subst k.
-    exists SBDF_ERROR_OUT_OF_MEMORY. eexists (Build_crl _ _ _ _ _ _ _ _ _ _). do 4 eexists. split; [|split; [exists []; now rewrite app_nil_r|right; split; [reflexivity|split; [reflexivity|exists 0%nat; cbn; now rewrite app_nil_r]]]].
+    exists SBDF_ERROR_OUT_OF_MEMORY. eexists (Build_crl _ _ _ _ _ _ _ _ _ _). do 4 eexists. split; [|split; [exists []; now rewrite app_nil_r|split; [right; split; [reflexivity|split; [reflexivity|exists 0%nat; cbn; now rewrite app_nil_r]]|intros X; lia]]].
     apply cs_read_ret. unfold cs_body. cbn [fbody prog_sbdf_cs_read]. apply HEAD. uncr.
     eapply bsE_seq; [eapply bsE_expr; evk; chk7; evk; reflexivity|].
     eapply bsE_seq_ret. eapply bsE_if; [evk; reflexivity|reflexivity|]. eapply bsE_return. evk. chk7. reflexivity. }
@@ -539,7 +562,8 @@ Proof.
     pose proof (cs_destroy_fresh_bs k2 s2 m2 hX L VNull hX h3 VUndef (NTH _ _) ltac:(left; split; reflexivity) eq_refl
                   ltac:(unfold hX, h3, L; erewrite cell_set_mid; [reflexivity|lia|reflexivity]) (NTH _ _)) as D.
     unfold h3 in D. rewrite KL in D. unfold fr in D. cbn [app] in D.
-    exists st1. eexists (Build_crl _ _ _ _ _ _ _ _ _ _). do 4 eexists. split; [|split; [exact Pf1|right; split; [exact Hneg1|split; [reflexivity|exists (S j); reflexivity]]]].
+    exists st1. eexists (Build_crl _ _ _ _ _ _ _ _ _ _). do 4 eexists. split; [|split; [exact Pf1|split; [right; split; [exact Hneg1|split; [reflexivity|exists (S j); reflexivity]]|]]].
+    2: { intros Hk0. assert (Dk : dec k < 0) by (unfold dec; replace (0 <? k) with false by lia; exact Hk0). specialize (MT1 Dk). destruct (Va.va_read false None s1) as [[xva xs]|eV]; [unfold SBDF_OK in MT1; lia|exact MT1]. }
     eapply cs_read_brk.
     - unfold cs_body. cbn [fbody prog_sbdf_cs_read]. apply HEAD. apply PRE.
       eapply bsE_seq_brk. eapply bsE_seq; [exact T3|]. uncr. eapply bsE_if; [evk; reflexivity|cbn [truth]; replace (st1 =? 0) with false by lia; reflexivity|apply bsE_break].
@@ -548,7 +572,7 @@ Proof.
       eapply bsE_return. evk. reflexivity. }
   assert (tl = Some blk :: newb) by (rewrite Hh2 in Htl; apply app_inv_head in Htl; congruence). subst tl. clear Htl Hh2.
   assert (MV : exists va, Va.va_read false None s1 = Ok (va, s2)) by (specialize (PP1 eq_refl); destruct (Va.va_read false None s1) as [[va sM]|]; [exists va; rewrite PP1; reflexivity|contradiction]).
-  destruct MV as (va & MV).
+  destruct MV as (va & MV). rewrite MV.
   set (slice := [VCell (S L) 0; VInt 0; VInt 0; VInt 0; VInt 1]) in *.
   set (hY := h ++ Some slice :: Some blk :: newb) in *.
   set (hpY := h ++ [Some slice]).
@@ -570,7 +594,7 @@ Proof.
   2: { (* the property count cannot be read *)
     destruct R as (c' & s' & R). pose proof (read_int32_err s2 e ER). subst e.
     specialize (DY k2 s'). unfold fr in DY. cbn [app] in DY.
-    exists SBDF_ERROR_IO. eexists (Build_crl _ _ _ _ _ _ _ _ _ _). do 4 eexists. split; [|split; [exact Pf1|right; split; [reflexivity|split; [reflexivity|eexists; reflexivity]]]].
+    exists SBDF_ERROR_IO. eexists (Build_crl _ _ _ _ _ _ _ _ _ _). do 4 eexists. split; [|split; [exact Pf1|split; [right; split; [reflexivity|split; [reflexivity|eexists; reflexivity]]|intros _; reflexivity]]].
     eapply cs_read_brk.
     - unfold cs_body. cbn [fbody prog_sbdf_cs_read]. apply HEAD. apply PRE.
       eapply bsE_seq; [eapply bsE_seq; [exact T3|uncr; eapply bsE_if; [evk; reflexivity|reflexivity|apply bsE_skip]]|].
@@ -583,7 +607,7 @@ Proof.
   destruct (v <? 0) eqn:Eneg.
   { (* a negative property count *)
     specialize (DY k2 s3). unfold fr in DY. cbn [app] in DY.
-    exists SBDF_ERROR_INVALID_SIZE. eexists (Build_crl _ _ _ _ _ _ _ _ _ _). do 4 eexists. split; [|split; [exact Pf1|right; split; [reflexivity|split; [reflexivity|eexists; reflexivity]]]].
+    exists SBDF_ERROR_INVALID_SIZE. eexists (Build_crl _ _ _ _ _ _ _ _ _ _). do 4 eexists. split; [|split; [exact Pf1|split; [right; split; [reflexivity|split; [reflexivity|eexists; reflexivity]]|intros _; reflexivity]]].
     eapply cs_read_brk.
     - unfold cs_body. cbn [fbody prog_sbdf_cs_read]. apply HEAD. apply PRE.
       eapply bsE_seq; [eapply bsE_seq; [exact T3|uncr; eapply bsE_if; [evk; reflexivity|reflexivity|apply bsE_skip]]|].
@@ -596,7 +620,7 @@ Proof.
   destruct (v =? 0) eqn:Ez.
   { (* no properties: the slice is handed out *)
   assert (v = 0) by lia. subst v.
-  exists SBDF_OK. eexists (Build_crl _ _ _ _ _ _ _ _ _ _). do 4 eexists. split; [|split; [exact Pf1|left; split; [reflexivity|split; [reflexivity|]]]].
+  exists SBDF_OK. eexists (Build_crl _ _ _ _ _ _ _ _ _ _). do 4 eexists. split; [|split; [exact Pf1|split; [left; split; [reflexivity|split; [reflexivity|]]|intros _; reflexivity]]].
   2: { split.
        - exists (Some slice :: Some blk :: newb). split; [reflexivity|]. split; [cbn [List.length]; lia|]. apply cs_sem_fresh. exact VR.
        - exists s1, va, s2, 0, s3. split; [reflexivity|]. split; [exact MV|]. split; [exact ER|]. split; [lia|]. split; [reflexivity|exact (read_int32_bytes s2 0 s3 Hs2 ER)]. }
@@ -611,8 +635,8 @@ Proof.
     eapply bsE_return. evk. reflexivity. }
   (* properties: the loop *)
   destruct (PROPS k2 s3 m2 blk newb v VR ltac:(lia) (read_int32_bytes s2 v s3 Hs2 ER) (NBP s1 va s2 v s3 eq_refl MV ER))
-    as (st & l' & k' & s' & h' & m' & (sB & B1 & B2) & Pf2 & Out).
-  exists st, l', k', s', h', m'. split; [|split].
+    as (st & l' & k' & s' & h' & m' & (sB & B1 & B2) & Pf2 & Out & PST).
+  exists st, l', k', s', h', m'. split; [|split; [|split]].
   - eapply cs_read_brk; [|exact B2].
     unfold cs_body. cbn [fbody prog_sbdf_cs_read]. apply HEAD. apply PRE.
     eapply bsE_seq; [eapply bsE_seq; [exact T3|uncr; eapply bsE_if; [evk; reflexivity|reflexivity|apply bsE_skip]]|].
@@ -622,6 +646,9 @@ Proof.
   - destruct Pf1 as (x1 & ->). destruct Pf2 as (x2 & ->). exists (x1 ++ x2). now rewrite app_assoc.
   - destruct Out as [(-> & Ho & Rl & PE & PB)|(Hn & Ho & Hj)]; [left|right; split; [exact Hn|split; [exact Ho|exact Hj]]].
     split; [reflexivity|]. split; [exact Ho|]. split; [exact Rl|]. exists s1, va, s2, v, s3. split; [reflexivity|]. split; [exact MV|]. split; [exact ER|]. split; [lia|split; [exact PE|exact PB]].
+  - intros Hk0. assert (Dk : dec k < 0) by (unfold dec; replace (0 <? k) with false by lia; exact Hk0).
+    assert (Hk2 : k2 = k) by (rewrite (KK1 Dk eq_refl); unfold dec; replace (0 <? k) with false by lia; reflexivity).
+    apply PST. lia.
 Qed.
 End Main.
 
